@@ -1,7 +1,7 @@
 """C20 - event descriptors: structural clauses."""
 import ast
 
-from sa.cfg import cfg_of
+from sa.cfg import cfg_of, split_atoms
 from sa.program import dotted, norm, own_nodes, const_str
 from sa.util import (assignments_to, cfg_node_of, enclosing_loops, guards_at, stmt_text)
 from sa.util import compare_parts as compare_parts_
@@ -112,32 +112,70 @@ def run(ctx):
     # ---- R3 forbidden (null) transitions stop the upward walk --------------------------------
     ce = p.method("BaseInterpreter", "_collect_eligible_transitions")
     g2 = cfg_of(ce.node)
-    ftests = [n for n in g2.nodes if n.kind == "test" and isinstance(n.ast, ast.Attribute) and n.ast.attr == "forbidden"]
-    c.expect("R3", "forbidden test in the on-loop", len(ftests), 1, ce, "candidate collection no longer tests for a null (forbidden) transition: it does not consume its event and ancestor handlers run")
-    passes = [x for x in own_nodes(ce.node) if isinstance(x, ast.Call) and isinstance(x.func, ast.Name) and x.func.id == "_passes"]
-    for ft in ftests:
-        loop = [l for l in enclosing_loops(ce, ft.ast) if isinstance(l, ast.For)]
-        same_loop_passes = [x for x in passes if loop and loop[0] in enclosing_loops(ce, x)]
-        ok = all(any(norm(a) == norm(ft.ast) and not pol for a, pol in guards_at(ce, x)) for x in same_loop_passes) and bool(same_loop_passes)
-        c.ob("R3", ok, ce, "forbidden-before-guard", "a null transition is recognised before any guard of that descriptor is evaluated" if ok else
-             "guards are evaluated for a descriptor before its 'forbidden' marker is tested", ft.ast)
-        # leads to a break of the ancestor walk: from the T edge the 'current = current.parent' step is unreachable
-        walk = next((l for l in own_nodes(ce.node) if isinstance(l, ast.While)), None)
-        step = [n for s in walk.body if isinstance(s, ast.Assign) and "parent" in norm(s.value) for n in g2.nodes_of(s)]
-        t_succ = [d for d, lab in g2.succ[ft.id] if lab == "T"]
-        # the repo's idiom is 'blocked = True; break' + 'if blocked: break' at each loop level: follow the flag path-sensitively
-        flags = [s.targets[0].id for nid in g2.reachable(t_succ, follow_exc=False) for s in [g2.nodes[nid].ast]
+    walk = next((l for l in own_nodes(ce.node) if isinstance(l, ast.While)), None)
+    step = [n for s in (walk.body if walk is not None else []) if isinstance(s, ast.Assign) and "parent" in norm(s.value) for n in g2.nodes_of(s)]
+    c.expect("R3", "ancestor walk of candidate collection", len(step), 1, ce, "candidate collection no longer walks 'current = current.parent'")
+
+    def after_in_ce(starts):
+        """What candidate collection can still do from *starts* (flag idiom followed path-sensitively)."""
+        flags = [s.targets[0].id for nid in g2.reachable(starts, follow_exc=False) for s in [g2.nodes[nid].ast]
                  if g2.nodes[nid].kind == "stmt" and isinstance(s, ast.Assign) and isinstance(s.targets[0], ast.Name)
                  and isinstance(s.value, ast.Constant) and s.value.value is True]
         if flags:
             from sa.cfg import reachable_with_flag
-            reach = reachable_with_flag(g2, [(d, None) for d in t_succ], flags[0])
+            reach = reachable_with_flag(g2, [(d, None) for d in starts], flags[0])
         else:
-            reach = g2.reachable(t_succ, follow_exc=False)
-        # transitions of other buckets ('' / onDone / after / invoke) at this level must not be collected either
+            reach = g2.reachable(starts, follow_exc=False)
         appends_after = [n.id for n in g2.nodes if n.id in reach and n.ast is not None and n.kind == "stmt" and "eligible.append" in norm(n.ast)]
-        ok = not (set(step) & reach) and not appends_after
-        c.ob("R3", ok, ce, "forbidden-stops-ancestor-walk", "a null transition consumes the event: nothing else is collected and no ancestor is consulted" if ok else
+        # a nested collector called from there appends as well
+        appends_after += [n.id for n in g2.nodes if n.id in reach and n.ast is not None and any(
+            isinstance(y, ast.Call) and isinstance(y.func, ast.Name) and y.func.id in ce.nested and
+            any("eligible.append" in norm(z) for z in own_nodes(ce.nested[y.func.id].node) if isinstance(z, ast.Call)) for y in ast.walk(n.ast))]
+        return not (set(step) & reach) and not appends_after
+
+    owners = [ce] + list(ce.nested.values())
+    found = []
+    for owner in owners:
+        go = cfg_of(owner.node)
+        for n in go.nodes:
+            if n.kind == "test" and isinstance(n.ast, ast.Attribute) and n.ast.attr == "forbidden":
+                found.append((owner, go, n))
+    c.expect("R3", "forbidden test in the on-loop", len(found), 1, ce, "candidate collection no longer tests for a null (forbidden) transition: it does not consume its event and ancestor handlers run")
+    for owner, go, ft in found:
+        passes = [x for x in own_nodes(owner.node) if isinstance(x, ast.Call) and shared.guard_pass_call(ctx, ce, x) is not None]
+        loop = [l for l in enclosing_loops(owner, ft.ast) if isinstance(l, ast.For)]
+        same_loop_passes = [x for x in passes if loop and loop[0] in enclosing_loops(owner, x)]
+        ok = all(any(norm(a) == norm(ft.ast) and not pol for a, pol in guards_at(owner, x)) for x in same_loop_passes) and bool(same_loop_passes)
+        c.ob("R3", ok, owner, "forbidden-before-guard", "a null transition is recognised before any guard of that descriptor is evaluated" if ok else
+             "guards are evaluated for a descriptor before its 'forbidden' marker is tested", ft.ast)
+        t_succ = [d for d, lab in go.succ[ft.id] if lab == "T"]
+        if owner is ce:
+            # leads to a break of the ancestor walk: from the T edge the 'current = current.parent' step is unreachable and
+            # transitions of other buckets ('' / onDone / after / invoke) at this level are not collected either
+            ok = after_in_ce(t_succ)
+        else:
+            # the on-bucket was moved into a nested collector that reports "forbidden" to the walk:  return True  only on that path,
+            # nothing appended on it, and the walk breaks on a true result
+            reach = go.reachable(t_succ, follow_exc=False)
+            appends = [n.id for n in go.nodes if n.id in reach and n.ast is not None and n.kind == "stmt" and "eligible.append" in norm(n.ast)]
+            rets = [r for r in own_nodes(owner.node) if isinstance(r, ast.Return)]
+            def truthy(r):
+                return r.value is not None and not (isinstance(r.value, ast.Constant) and not r.value.value)
+            fall_through_none = True     # falling off the end returns None: false
+            signal = [r for r in rets if truthy(r)]
+            sig_ok = bool(signal) and all(isinstance(r.value, ast.Constant) and r.value.value is True and
+                                          any(norm(a) == norm(ft.ast) and pol for a, pol in guards_at(owner, r)) for r in signal)
+            reach_ret = any(go.nodes[i].ast in signal for i in reach)
+            sites = [y for y in own_nodes(ce.node) if isinstance(y, ast.Call) and isinstance(y.func, ast.Name) and y.func.id == owner.name]
+            site_ok = bool(sites)
+            for y in sites:
+                tests = [n for n in g2.nodes if n.kind == "test" and n.ast is not None and any(a is y and pol for a, pol in split_atoms(n.ast, True))]
+                if not tests:
+                    site_ok = False      # the result is dropped, or used as something else than a condition
+                for tn in tests:
+                    site_ok = site_ok and after_in_ce([d for d, lab in g2.succ[tn.id] if lab == "T"])
+            ok = not appends and sig_ok and reach_ret and site_ok and fall_through_none
+        c.ob("R3", ok, owner, "forbidden-stops-ancestor-walk", "a null transition consumes the event: nothing else is collected and no ancestor is consulted" if ok else
              "after a null (forbidden) transition the walk still reaches an ancestor or collects further candidates", ft.ast)
     nt = p.cls("StateNode").methods["_normalize_transitions"]
     ok = any(isinstance(x, ast.If) and "config is None" in norm(x.test) and "__forbidden__" in norm(x.body[0]) for x in own_nodes(nt.node))
